@@ -56,4 +56,57 @@ theorem strip_plain (a : Str) (ha : ∀ c ∈ a, plainChar c = true) : strip a =
   have := strip_append_plain a [] ha
   simpa [strip_nil] using this
 
+/-! ### lines on which the passes have nothing left to do -/
+
+/-- `p` occurs in `s` -/
+def occurs (p : Str) : Str → Bool
+  | [] => p.isEmpty
+  | c :: t => p.isPrefixOf (c :: t) || occurs p t
+
+theorem cutLineComment_id : ∀ (s : Str), occurs ['/', '/'] s = false → cutLineComment s = s
+  | [], _ => rfl
+  | [c], _ => by
+    by_cases hc : c = '/'
+    · subst hc; rfl
+    · rw [cutLineComment_cons c [] hc]; rfl
+  | c :: d :: t, h => by
+    simp only [occurs, Bool.or_eq_false_iff] at h
+    have ih := cutLineComment_id (d :: t) (by simpa [occurs] using h.2)
+    by_cases hc : c = '/'
+    · subst hc
+      have hd : d ≠ '/' := by
+        intro hd; subst hd
+        simp [List.isPrefixOf] at h
+      rw [cutLineComment]
+      · rw [ih]
+      · intro t' _ heq
+        cases heq
+        exact hd rfl
+    · rw [cutLineComment_cons c _ hc, ih]
+
+theorem subGo_id (o1 o2 : Char) (close : Str) : ∀ (f : Nat) (s : Str), occurs [o1, o2] s = false → subGo [o1, o2] close f s = s
+  | 0, _, _ => rfl
+  | _ + 1, [], _ => rfl
+  | f + 1, c :: cs, h => by
+    simp only [occurs, Bool.or_eq_false_iff] at h
+    rw [subGo]
+    simp only [h.1, Bool.false_eq_true, if_false]
+    rw [subGo_id o1 o2 close f cs h.2]
+
+theorem subGo_nil (open_ close : Str) (f : Nat) : subGo open_ close f [] = [] := by
+  cases f <;> rfl
+
+theorem subDelim_id_single (o : Char) (close s : Str) (h : ∀ c ∈ s, c ≠ o) : subDelim [o] close s = s := by
+  have := subGo_append o [] close s [] h 0
+  unfold subDelim
+  simpa [subGo_nil] using this
+
+/-- a line that holds no `//`, no `/*`, no `"` and no `'` is left as it is -/
+theorem strip_id (s : Str) (h1 : occurs ['/', '/'] s = false) (h2 : occurs ['/', '*'] s = false)
+    (h3 : ∀ c ∈ s, c ≠ '"') (h4 : ∀ c ∈ s, c ≠ '\'') : strip s = s := by
+  unfold strip
+  rw [cutLineComment_id s h1]
+  have : subDelim ['/', '*'] ['*', '/'] s = s := subGo_id '/' '*' _ _ s h2
+  rw [this, subDelim_id_single '"' _ s h3, subDelim_id_single '\'' _ s h4]
+
 end SymbolVerif.Lint.Strip
